@@ -73,6 +73,15 @@
 //!                PATH (xsel.family.*); xsel.random after exec.  Failing statements are shrunk (rows, clauses, numbers).
 //!                xsel.candidate.*: clauses that are parsed and not (or not as written) applied on the unchanged tree —
 //!                SQL-feature gaps outside the property's quantifier: observations, re-established at every run.
+//!   xsel.insert.* INSERT … VALUES with several tuples of DIFFERENT lengths (Parse/Insert.lean, op `insrows`): shorter after
+//!                longer, longer after shorter, mixed; no column list / listed in schema order / permuted / two of three
+//!                columns; every omitted trailing column nullable; explicit NULLs.  Text on database A, on the twin B one
+//!                RelationalEngine::insert per tuple with the row `ins_row(columns, tuple)` (the tuple's own values, nothing
+//!                else); ids, the table state ROW BY ROW and the model's rows are compared (classes
+//!                …exec_insert/values_row_differs_from_direct_call, …/values_result_differs_from_direct_call).
+//!                xsel.insert.directed runs before every other xsel stream (first case: `VALUES (1, 10, 'x'), (2)`, then its
+//!                neighbours and every triple of lengths × every column order), xsel.insert.random after xsel.random.
+//!                Failing statements are shrunk (table, tuples, trailing values, column list).
 //!   Errors on a compared line are variant + position + expected token, never message wording (see `canon_err`).
 use nverif::*;
 use serde_json::json;
